@@ -825,6 +825,9 @@ func (fa *frameAnalysis) call(s *fnSummary, ci ssa.CallInstruction) {
 			}
 		}
 		fa.assumes["external "+name+" writes exactly the listed argument positions"] = true
+	} else if isMethod && c.IsInvoke() && fa.eng.pureIfaceMethod(c) {
+		// the interface method has a contract declaring it `pure` (assumed, listed with the contracts)
+		fa.assumes["interface methods under a `pure` contract do not modify their receiver"] = true
 	} else if isMethod && !extReadOnlyMethods[name] && len(args) > 0 {
 		if os.Getenv("GOVC_TAINT_DEBUG") != "" && strings.Contains(s.fn.String(), os.Getenv("GOVC_TAINT_DEBUG")) {
 			fmt.Fprintf(os.Stderr, "EXTCALL %s recv=%s bases=%d at %s\n", name, args[0].Name(), len(fa.val(s, args[0])), pos)
@@ -1117,4 +1120,17 @@ func isCellType(t types.Type) bool {
 		return false
 	}
 	return isRefLike(p.Elem()) || isFuncType(p.Elem())
+}
+
+// pureIfaceMethod: does the invoked interface method have a contract with `pure`?
+func (eng *Engine) pureIfaceMethod(c *ssa.CallCommon) bool {
+	if c.Method == nil {
+		return false
+	}
+	for _, k := range []string{c.Method.FullName(), "(" + typeString(c.Value.Type()) + ")." + c.Method.Name()} {
+		if con := eng.cs.lookup(k); con != nil && con.Pure {
+			return true
+		}
+	}
+	return false
 }
